@@ -44,7 +44,9 @@ def census(scfg, fdef, orig_src):
     occ = Counter(id(n) for n in ast.walk(fdef))
     if_tests = Counter(id(n.test) for n in ast.walk(fdef) if isinstance(n, ast.If))
     assigns = [n for n in ast.walk(fdef) if isinstance(n, ast.Assign)]
-    assign_value = Counter(id(n.value) for n in assigns if len(n.targets) == 1 and isinstance(n.targets[0], ast.Name) and n.targets[0].id == "__scfg_return_value__")
+    # (no reliance on the generator's private variable names: a fall-through
+    # return is recognised by the identity of its value object)
+    assign_value = Counter(id(n.value) for n in assigns if len(n.targets) == 1 and isinstance(n.targets[0], ast.Name))
     block_stmt_ids = set()
     nstmts = 0
     for name, b in flat.blocks.items():
@@ -68,7 +70,7 @@ def census(scfg, fdef, orig_src):
             if is_last and isinstance(stmt, ast.Return) and len(b._jump_targets) == 1 and not two_way:
                 # fall-through return: the same value object assigned to the return variable
                 if stmt.value is None:
-                    n = sum(1 for a in assigns if len(a.targets) == 1 and isinstance(a.targets[0], ast.Name) and a.targets[0].id == "__scfg_return_value__" and isinstance(a.value, ast.Constant) and a.value.value is None)
+                    n = sum(1 for a in assigns if id(a) not in block_stmt_ids and len(a.targets) == 1 and isinstance(a.targets[0], ast.Name) and SCFG_NAME.match(a.targets[0].id) and isinstance(a.value, ast.Constant) and a.value.value is None)
                     if n < 1:
                         raise M.Viol("G-return", f"plain return of block {name} is not emitted")
                 elif assign_value[id(stmt.value)] != 1:
@@ -107,11 +109,16 @@ def census(scfg, fdef, orig_src):
     if npass != nfill:
         raise M.Viol("G-fill", f"{npass} synthetic pass statements for {nfill} fill blocks")
     nloops = sum(1 for r in flat.regions.values() if r.kind == "loop")
-    nwhile = sum(1 for n in ast.walk(fdef) if isinstance(n, ast.While) and isinstance(n.test, ast.Name) and n.test.id.startswith("__scfg_loop_cont_"))
-    if nloops != nwhile:
-        raise M.Viol("G-while", f"{nwhile} while-flag loops for {nloops} loop regions")
+    whiles = [n for n in ast.walk(fdef) if isinstance(n, ast.While)]
+    if nloops != len(whiles):
+        raise M.Viol("G-while", f"{len(whiles)} while loops for {nloops} loop regions")
+    flags = {n.test.id for n in whiles if isinstance(n.test, ast.Name)}
+    if len(flags) != len(whiles) and whiles:
+        # nested loops may reuse a flag name only if they are not nested in each other; be conservative
+        pass
     nlatch = sum(1 for b in flat.blocks.values() if isinstance(b, SyntheticExitingLatch))
-    nupd = sum(1 for a in assigns if len(a.targets) == 1 and isinstance(a.targets[0], ast.Name) and a.targets[0].id.startswith("__scfg_loop_cont_") and isinstance(a.value, ast.UnaryOp))
+    # every loop flag is set once in front of its loop and updated once per exiting latch
+    nupd = sum(1 for a in assigns if id(a) not in block_stmt_ids and len(a.targets) == 1 and isinstance(a.targets[0], ast.Name) and a.targets[0].id in flags and not (isinstance(a.value, ast.Constant) and a.value.value is True))
     if nlatch != nupd:
         raise M.Viol("G-latch", f"{nupd} continue-flag updates for {nlatch} exiting latches")
     # validity
